@@ -9,13 +9,37 @@ for f in sorted(glob.glob('/verif/seeded/*/meta.json')):
     files = sorted(set(re.findall(r'^\+\+\+ b/(\S+)', diff, flags=re.M)))
     v = m.get('check_verdicts', {})
     cells = []
+    if not isinstance(v, dict) or not v:
+        # metas written by the property owners for their own seeded changes (several layouts)
+        v = {}
+        ex = m.get('check_exit', (m.get('check_verdict') or {}).get('exit') if isinstance(m.get('check_verdict'), dict) else None)
+        sig = ''
+        for key in ('signatures', 'first', 'first_concrete_violation', 'replay_excerpt', 'replays', 'violations', 'first_violations'):
+            val = m.get(key)
+            if not val:
+                continue
+            mm = re.search(r"'signature': '([^']+)'", str(val)) or re.search(r"^\['([^']+)'", str(val))
+            if mm:
+                sig = mm.group(1)
+                break
+        prop = m.get('property') or name.split('_')[0]
+        if ex is not None:
+            v = {prop: {'exit': int(ex), 'first': sig}}
     for c, r in v.items():
-        if r['exit'] == 1:
-            first = r.get('first') or ['', '']
-            cells.append(f"{c}: VIOLATION ({(first[0] or '')[:60]}){' no-failing-input' if r.get('no_failing_input') else ''}")
+        if not isinstance(r, dict):
+            cells.append(f"{c}: {str(r)[:80]}")
+            continue
+        ex = r.get('exit', r.get('exit_code'))
+        if ex == 1:
+            first = r.get('first') or r.get('signature') or ['', '']
+            sig = first if isinstance(first, str) else (first[0] if isinstance(first, (list, tuple)) and first else '')
+            cells.append(f"{c}: VIOLATION ({(sig or '')[:60]}){' no-failing-input' if r.get('no_failing_input') else ''}")
         else:
             cells.append(f"{c}: quiet")
-    rows.append(f"| {name} | {', '.join(files)} | {'yes' if m.get('suite_passes') else 'NO'} | {'yes' if m.get('demo_differs') else 'NO'} | {'; '.join(cells)} |")
+    if m.get('strengthened'):
+        cells.append("(after strengthening)")
+    suite = m.get('suite_passes', m.get('suite', ''))
+    rows.append(f"| {name} | {', '.join(files)} | {'yes' if suite in (True, 'yes') or (isinstance(suite, str) and '1361' in suite) else ('NO' if suite is False else str(suite)[:20])} | {'yes' if m.get('demo_differs', True) else 'NO'} | {'; '.join(cells)} |")
 print("| change | files touched | suite passes with it | demo differs | verdicts of the checks run against the changed tree |")
 print("|---|---|---|---|---|")
 print("\n".join(rows))
